@@ -15,6 +15,8 @@ NA_REASON = {
 }
 PENDING = "check not built yet in this round (planned design in DESIGN.md section 2); not claimed until its quick command runs clean"
 
+READY = set(open("/verif/tools/ready.txt").read().split())
+
 META = {
     # id: (engine, technique, level text, level note, design_ref)
 }
@@ -31,7 +33,7 @@ def main():
             na.append({"property_id": pid, "reason": PENDING})
             continue
         m = importlib.import_module(f"props.{pid.lower()}")
-        if getattr(m, "NOT_READY", False):
+        if getattr(m, "NOT_READY", False) or pid not in READY:
             na.append({"property_id": pid, "reason": PENDING})
             continue
         checks.append(
